@@ -3,6 +3,7 @@
 package object
 
 import (
+	"context"
 	"unicode/utf8"
 
 	"github.com/risor-io/risor/internal/verifrt"
@@ -109,7 +110,19 @@ func HarnessC16MapOperations() {
 	v := verifrt.Int64()
 	verifrt.Assume(v != c16NilVal)
 	mv, present := c16ModelGet(model, k)
-	switch verifrt.Choose(9) {
+	switch verifrt.Choose(10) {
+	case 9: // the script-level get(key, default) method
+		getAttr, ok := m.GetAttr("get")
+		verifrt.Assert(ok, "map-has-a-get-method")
+		if ok {
+			got := getAttr.(*Builtin).Call(context.Background(), NewString(k), &Int{value: v})
+			if present {
+				verifrt.Reach("opt:get-method-present")
+				verifrt.Assert(c16Is(got, mv), "get-returns-the-stored-value-also-when-it-is-nil")
+			} else {
+				verifrt.Assert(c16Is(got, v), "get-of-a-missing-key-returns-the-default")
+			}
+		}
 	case 0: // get item
 		got, err := m.GetItem(NewString(k))
 		if present {
